@@ -4,12 +4,13 @@ Fault placements (errno classes x socket calls, incl. the socket-option calls
 on a just-accepted connection) x schedules on the real server under the
 deterministic scheduler, with a second, healthy connection that must complete;
 TLC judges the traces with the monitor clauses P13_* of spec/Pipeline.tla."""
+import copy
 import errno
 
 from checks import chan_common as cc
 from checks import chan_model
 
-LEVEL = "exploration"
+LEVEL = "model_checking"
 
 DISC = [errno.ECONNRESET, errno.EPIPE, errno.ENOTCONN, errno.EBADF]
 OTHER = [errno.EINVAL, errno.EIO]
@@ -62,7 +63,15 @@ def scenarios(thorough):
 
 def run(chk, replay=None):
     scns = scenarios(chk.thorough)
-    chan_model.model_check(chk, "C13")
+    # the model has one connection: the scenarios inside its slice (send faults, a client that goes away) are
+    # also run without the healthy second connection and those executions are validated against Channel.tla
+    alone = []
+    for s in scns:
+        s1 = copy.deepcopy(s)
+        s1["conns"] = s1["conns"][:1]
+        s1["name"] = s1.get("name", "") + " (alone)"
+        alone.append(s1)
+    chan_model.model_check(chk, "C13", alone)
     n_pct, dfs = (600, 2500) if chk.thorough else (50, 250)
     cc.explore_and_validate(chk, "C13", scns, n_pct, dfs, bound=2, label="faults")
     chk.rule = ("cases = (fault placement x schedule): one injected errno on a send/recv/accept/getsockopt/setsockopt/setblocking call of connection 1, "
